@@ -286,9 +286,10 @@ SU_vector SQuIDS::GetIntermediateState(unsigned int nrh, double xi) const{
     xit--;
   size_t xid=std::distance(x.begin(),xit);
   //linearly interpolate between the two states
-  double f2=((xi-x[xid])/(x[xid+1]-x[xid]));
+  size_t xid2=(xid+1<x.size() ? xid+1 : xid); //a grid of one node has no second bracketing node
+  double f2=(xid2==xid ? 0. : (xi-x[xid])/(x[xid2]-x[xid]));
   double f1=1-f2;
-  return f1*state[xid].rho[nrh] + f2*state[xid+1].rho[nrh];
+  return f1*state[xid].rho[nrh] + f2*state[xid2].rho[nrh];
 }
 
 double SQuIDS::GetExpectationValueD(const SU_vector& op, unsigned int nrh, double xi) const{
@@ -323,10 +324,11 @@ double SQuIDS::GetExpectationValueD(const SU_vector& op, unsigned int nrh, doubl
   //evaluate it before anything is placed in the buffer
   SU_vector h0=H0(xi,nrh);
   //linearly interpolate between the two states
-  double f2=((xi-x[xid])/(x[xid+1]-x[xid]));
+  size_t xid2=(xid+1<x.size() ? xid+1 : xid); //a grid of one node has no second bracketing node
+  double f2=(xid2==xid ? 0. : (xi-x[xid])/(x[xid2]-x[xid]));
   double f1=1-f2;
   buf.state =f1*state[xid].rho[nrh];
-  buf.state+=f2*state[xid+1].rho[nrh];
+  buf.state+=f2*state[xid2].rho[nrh];
   //compute the evolved operator
   buf.op=op.Evolve(h0,t-t_ini);
   //apply operator to state
@@ -348,16 +350,17 @@ double SQuIDS::GetExpectationValueD(const SU_vector& op, unsigned int nrh, doubl
   //evaluate it before anything is placed in the buffer
   SU_vector h0=H0(xi,nrh);
   //linearly interpolate between the two states
-  double f2=((xi-x[xid])/(x[xid+1]-x[xid]));
+  size_t xid2=(xid+1<x.size() ? xid+1 : xid); //a grid of one node has no second bracketing node
+  double f2=(xid2==xid ? 0. : (xi-x[xid])/(x[xid2]-x[xid]));
   double f1=1-f2;
   buf.state =f1*state[xid].rho[nrh];
-  buf.state+=f2*state[xid+1].rho[nrh];
+  buf.state+=f2*state[xid2].rho[nrh];
   //compute the evolved operator
   std::unique_ptr<double[]> evol_buf(new double[h0.GetEvolveBufferSize()]);
   h0.PrepareEvolve(evol_buf.get(),t-t_ini,scale,avr);
   buf.op=op.Evolve(evol_buf.get());
   //apply operator to state
-  return (buf.op*state[xid].rho[nrh])*f1 + (buf.op*state[xid+1].rho[nrh])*f2;
+  return (buf.op*state[xid].rho[nrh])*f1 + (buf.op*state[xid2].rho[nrh])*f2;
   //return buf.state*buf.op;
 }
 
